@@ -175,6 +175,50 @@ def loop_stream(ip, ev):
     return stream_chain(I.frozen(L['init'][i]))
 
 
+def event_block(e):
+    """Index of the MIR basic block whose terminator produced call event `e` (None for inlined sub-events)."""
+    for i, bl in enumerate(e.body['blocks']):
+        if bl['term'] is e.term:
+            return i
+    return None
+
+
+def loop_of_event(ip, e):
+    """Innermost loop record of e.body that contains the block of call event `e`."""
+    bi = event_block(e)
+    best = None
+    for L in ip.loops:
+        if L['body'] is e.body and bi in L['blocks'] and (best is None or len(L['blocks']) < len(best['blocks'])):
+            best = L
+    return best
+
+
+def call_sites_outside(F, target_path, owner, skip=('convex_cell_alternative', '::tests::')):
+    """Call sites of `target_path` that are not in `owner` and not in an unexported helper all of whose own call sites
+    are (transitively) in `owner` -> [(body, terminator)].  An extracted private helper of the owner is the owner."""
+    from ..facts import calls, callee_name
+    callers = {}
+    for b in F.bodies:
+        if any(x in b['path'] for x in skip):
+            continue
+        for bl, t in calls(b):
+            callers.setdefault(callee_name(t), []).append((b, t))
+    memo = {}
+
+    def inside(b, depth=0):
+        if b is owner:
+            return True
+        k = b['path']
+        if k in memo:
+            return memo[k]
+        memo[k] = False
+        cs = callers.get(k, [])
+        ok = depth < 4 and b['kind'] in ('Fn', 'AssocFn') and not b.get('exported') and bool(cs) and all(inside(c, depth + 1) for c, _ in cs)
+        memo[k] = ok
+        return ok
+    return [(b, t) for b, t in callers.get(target_path, []) if not inside(b)], len(callers.get(target_path, []))
+
+
 def next_events(ip, body):
     return [e for e in ip.events if e.body is body and e.callee and e.callee.endswith('::next') and 'Iterator' in e.callee]
 
